@@ -43,6 +43,15 @@ def workload(ctx):
     rng = ctx.rng(1)
     for i in range(ctx.n(600, 6000)):
         yield "call", {"symbol": keys[int(rng.integers(len(keys)))], "s": float(rng.uniform(0, 2.5))}
+    # the rest of the package uses the same table: structure factors and file readers run, then every entry is judged again
+    for i in range(ctx.n(12, 60)):
+        if ctx.mine(i):
+            yield "other_users", {"s": int(rng.integers(0, 2 ** 31))}
+        else:
+            rng.integers(0, 2 ** 31)
+    for i, k in enumerate(keys):
+        if ctx.mine(i):
+            yield "element", {"symbol": k, "pass": 2}
 
 
 def case_table(ctx, p):
@@ -95,4 +104,42 @@ def case_call(ctx, p):
     ctx.mon.check("workload:FormFactor returns a finite number", bool(np.isfinite(v)), observed=v)
 
 
-CASES = {"element": case_element, "table": case_table, "call": case_call}
+def case_other_users(ctx, p):
+    """StructureFactor, CIFread (incl. charged atom-type symbols such as Mg2+ / O2-) and PDBread are run; what they do to
+    the shared table is judged by the second pass over every element"""
+    import os
+    from vfw import boot
+    from vfw.props import c17
+    rng = np.random.default_rng(p["s"])
+    S = ctx.S
+    d = os.path.join(boot.WORK, "c16-%d-%d" % (os.getpid(), ctx.shard))
+    os.makedirs(d, exist_ok=True)
+    no = int(rng.choice([2, 14, 62, 139, 166, 194, 225]))
+    name = {2: "P-1", 14: "P21/c", 62: "Pnma", 139: "I4/mmm", 166: "R-3m", 194: "P63/mmc", 225: "Fm-3m"}[no]
+    text, rec = c17.make_cif(rng, name, no, "standard")
+    if p["s"] % 2:
+        # the same file with ionic atom-type symbols
+        for el, ion in (("Fe", "Fe3+"), ("Cu", "Cu2+"), ("O", "O2-"), ("Na", "Na1+"), ("Cl", "Cl1-"), ("Al", "Al3+"), ("Zn", "Zn2+"), ("S", "S2-")):
+            text = text.replace("\n%s %s " % (el, el), "\n%s %s " % (ion, ion)).replace(" %s 0." % el, " %s 0." % ion)
+    path = os.path.join(d, "x.cif")
+    with open(path, "w") as fh:
+        fh.write(text)
+    try:
+        b = S.build_atomlist()
+        b.CIFread(ciffile=path)
+        al = b.atomlist
+        atoms = [a for a in al.atom if a.atomtype in ctx.A.formfactor]
+        if atoms:
+            S.StructureFactor(np.array([1, 2, 0]), al.cell, al.sgname, atoms, None)
+    except Exception as exc:
+        ctx.mon.config("other users: raised %s" % type(exc).__name__)
+    finally:
+        try:
+            os.unlink(path)
+            os.rmdir(d)
+        except OSError:
+            pass
+    ctx.mon.config("other users of the table ran")
+
+
+CASES = {"element": case_element, "table": case_table, "call": case_call, "other_users": case_other_users}
